@@ -142,7 +142,7 @@ def oracle(ck):
 
 
 def run(ck):
-    ck.build_theorems("Properties/C18.v", deps=["NoiseSpec.vo"])
+    ck.build_theorems("Properties/C18.v", deps=["NoiseSpec.vo", "Idft.vo"])
     correspondence(ck)
     oracle(ck)
     ck.cov["rule"] = "alpha in [0.01,2], 1..7 decades, fs in {10,100,1000}: analytic product of the closed-form section responses vs f^-alpha on [1.5 fmin_eff, fmax_eff/1.5] (2 dB allowance); spectra of odd and even length incl. N=2,3; random bands"
